@@ -169,4 +169,25 @@ CHECKS = {
             'not against the real library'],
         'probes': ['probe:deadline_exceeded_under_shutdown'],
     },
+    'C15': {
+        'families': [['c15:prefetch', 1.0]],
+        'runs': {'quick': 16000, 'thorough': 800000},
+        'budget': {'quick': 110, 'thorough': 1500},
+        'level': 'exploration',
+        'rule': ('each evaluation starts a real PrefetchedCourierServer on the simulated network and drives the '
+                 'generator protocol (init_generator, next_batch_from_generator) either request by request or through '
+                 'the real client loop async_iterate, with drawn prefetch size 1..4, batch size 1..5, generator length '
+                 '0..9, return value, failure position, ignore_error, message latencies, and one scenario of {plain, '
+                 'failure, sequential re-init after k batches, re-init concurrent with an in-flight request, shutdown at '
+                 'a drawn step}. Non-trivial = more than five context switches; distinct = distinct event-log digests'),
+        'real': REAL_COMMON + ['ml_metrics PrefetchedCourierServer, CourierClient.async_iterate, IteratorQueue, lazy_fns'],
+        'stub': STUB_COMMON + ['courier.Server/Client -> fakes/courier', 'asyncio selector/self-pipe/clock -> SimEventLoop'],
+        'assumptions': ASSUME_COMMON + [
+            'a request that is in flight while the generator is replaced may be served from the new generator (the '
+            'protocol carries no generator id, and message reordering makes it indistinguishable from a later request); '
+            'what is checked is that no batch holds elements of two generators, no old element follows a new one, and '
+            'the elements taken by both clients together are exactly the new generator\'s elements',
+            'empty batches are tolerated (the client loop just asks again)'],
+        'probes': ['probe:reinit_with_request_in_flight'],
+    },
 }
